@@ -11,6 +11,7 @@ FUNCTIONS = [
     'circus.arbiter:Arbiter.stop_controller_and_close_sockets',
     'circus.watcher:Watcher._stop',
     'circus.watcher:Watcher.kill_processes',
+    'circus.watcher:Watcher.kill_process',       # the escalation that lets a stop end: SIGKILL once graceful_timeout has elapsed
     'circus.watcher:Watcher.reap_processes',
     'circus.watcher:Watcher.reap_process',
 ]
